@@ -28,26 +28,29 @@ import (
 	"github.com/free5gc/chf/cdr/cdrType"
 
 	chf_context "github.com/free5gc/chf/internal/context"
+	"github.com/free5gc/chf/verifh/faultproxy"
 	"github.com/free5gc/chf/verifh/stack"
 )
 
 const ccPrefix = "/nchf-convergedcharging/v3"
 
 type op struct {
-	Op       string            `json:"op"`
-	Supi     string            `json:"supi"`
-	Rg       int64             `json:"rg"`
-	Quota    *string           `json:"quota"`
-	UnitCost *string           `json:"unitCost"`
-	Body     json.RawMessage   `json:"body"`
-	Ref      string            `json:"ref"`
-	Param    string            `json:"param"`
-	Method   string            `json:"method"`
-	Path     string            `json:"path"`
-	Headers  map[string]string `json:"headers"`
-	Ms       int               `json:"ms"`
-	N        string            `json:"n"`     // elapse: how far the record counter advances
-	Burst    []op              `json:"burst"` // burst: requests served concurrently (the first one is started Ms earlier)
+	Op       string              `json:"op"`
+	Supi     string              `json:"supi"`
+	Rg       int64               `json:"rg"`
+	Quota    *string             `json:"quota"`
+	UnitCost *string             `json:"unitCost"`
+	Body     json.RawMessage     `json:"body"`
+	Ref      string              `json:"ref"`
+	Param    string              `json:"param"`
+	Method   string              `json:"method"`
+	Path     string              `json:"path"`
+	Headers  map[string]string   `json:"headers"`
+	Ms       int                 `json:"ms"`
+	Peer     string              `json:"peer"`    // fault: rf | abmf
+	Actions  []faultproxy.Action `json:"actions"` // fault: what happens to the next application answers
+	N        string              `json:"n"`       // elapse: how far the record counter advances
+	Burst    []op                `json:"burst"`   // burst: requests served concurrently (the first one is started Ms earlier)
 }
 
 type ueState struct {
@@ -159,6 +162,8 @@ type result struct {
 	Goroutines    int                               `json:"goroutines"`
 	RfConns       int                               `json:"rfConns"`
 	AbmfConns     int                               `json:"abmfConns"`
+	RfEvents      []faultproxy.Event                `json:"rfEvents,omitempty"`
+	AbmfEvents    []faultproxy.Event                `json:"abmfEvents,omitempty"`
 	Suas          int64                             `json:"suas"`
 	Ccas          int64                             `json:"ccas"`
 	Sub           []*result                         `json:"sub,omitempty"`
@@ -354,6 +359,7 @@ func main() {
 	volumeLimitPDU := flag.Int("volume-limit-pdu", 0, "configuration.volumeLimitPDU")
 	quotaValidity := flag.Int("quota-validity", 0, "configuration.quotaValidityTime")
 	oauth := flag.Bool("oauth", false, "set OAuth2Required in the CHF context")
+	faults := flag.Bool("faults", false, "relay the Diameter clients through fault-injecting proxies (op \"fault\")")
 	countAns := flag.Bool("countanswers", false, "count the Diameter answers received by the CHF's clients (trace log level)")
 	errlog := flag.Bool("errlog", false, "add the CHF's error-level log lines of each op as \"errlog\"")
 	logFile := flag.String("log", "", "write the CHF log (debug level) to this file (must be inside -dir)")
@@ -370,6 +376,7 @@ func main() {
 		OAuth2Required:    *oauth,
 		CaptureErrors:     *errlog,
 		CountAnswers:      *countAns,
+		FaultProxies:      *faults,
 	}
 	for _, s := range strings.Split(*services, ",") {
 		if s = strings.TrimSpace(s); s != "" {
@@ -458,6 +465,45 @@ func doOp(st *stack.Stack, tracker *cdrTracker, idx int, line []byte, timeout ti
 	case "sleep":
 		isHTTP = false
 		time.Sleep(time.Duration(o.Ms) * time.Millisecond)
+	case "fault":
+		// script the next application answers of one peer
+		isHTTP = false
+		switch {
+		case st.RfProxy == nil:
+			res.Error = "chargesim was not started with -faults"
+		case o.Peer == "rf":
+			st.RfProxy.Script(o.Actions)
+		case o.Peer == "abmf":
+			st.AbmfProxy.Script(o.Actions)
+		default:
+			res.Error = "peer must be rf or abmf"
+		}
+	case "stacks":
+		// where the goroutines are: count per (top function, creator)
+		isHTTP = false
+		buf := make([]byte, 8<<20)
+		n := runtime.Stack(buf, true)
+		counts := map[string]int{}
+		for _, g := range strings.Split(string(buf[:n]), "\n\n") {
+			lines := strings.Split(g, "\n")
+			top, created := "", ""
+			for i, l := range lines {
+				if i == 1 {
+					top = strings.TrimSpace(l)
+				}
+				if strings.HasPrefix(l, "created by ") {
+					created = strings.TrimSpace(strings.TrimPrefix(l, "created by "))
+				}
+			}
+			if k := strings.Index(top, "("); k > 0 {
+				top = top[:k]
+			}
+			if k := strings.Index(created, " in goroutine"); k > 0 {
+				created = created[:k]
+			}
+			counts[top+" <- "+created]++
+		}
+		res.Body = counts
 	case "elapse":
 		// stands for n records opened for subscribers outside the history
 		isHTTP = false
@@ -565,4 +611,7 @@ func observe(st *stack.Stack, tracker *cdrTracker, res *result, o *op, waitNotif
 	res.Goroutines = runtime.NumGoroutine()
 	res.RfConns, res.AbmfConns = st.PeerConns()
 	res.Suas, res.Ccas = st.Answers()
+	if st.RfProxy != nil {
+		res.RfEvents, res.AbmfEvents = st.RfProxy.Events(), st.AbmfProxy.Events()
+	}
 }
